@@ -144,6 +144,18 @@ def run(ck):
                             ck.fail(f"point records read back in pieces of {kk} (all kept, then joined) are not byte-identical to what was written", dict(inp, pieces=kk))
                     except Exception as e:
                         ck.fail(f"reading the written file in pieces raised {type(e).__name__}: {e}", inp)
+                # the written file mapped into memory presents the same records
+                if kind == "path":
+                    try:
+                        mm = laspy.mmap(os.path.join(tmpdir, "out.las"))
+                        try:
+                            if mm.points.array.tobytes() != raw or len(mm.points) != n:
+                                ck.fail(f"the written file mapped with laspy.mmap presents {len(mm.points)} records that are not the {n} written", inp)
+                        finally:
+                            mm.close()
+                        ck.count("read_back_through_mmap")
+                    except Exception as e:
+                        ck.fail(f"laspy.mmap on the written file raised {type(e).__name__}: {e}", inp)
                 buf2 = io.BytesIO()
                 back.write(buf2)
                 if buf2.getvalue() != data:
